@@ -355,6 +355,8 @@ def run(ctx):
     ctx.floor("dependency_edges", 40)
     ctx.floor("parse_calls", 1)
     ctx.floor("section_reads", 25)
+    ctx.floor("entry_list_uses", 2)
+    ctx.floor("parse_read_attrs", 4)
     ctx.assume("TypeMapItem(x) raises ValueError for a type code outside the enumeration, so every MapItem carries one of the 21 members")
     ctx.assume("a map list names every type at most once (format requirement); duplicates are not decided (sorted() is stable)")
     positive_control(ctx)
@@ -415,6 +417,7 @@ def core(ctx):
     ctors = check_seeks(ctx, repo, m, folder, cmi, members)
     closures = check_dependencies(ctx, repo, m, tm, cmi, deps, ctors)
     check_list_order(ctx, repo, m, cmi, lst_attr, closures)
+    check_entry_isolation(ctx, repo, m, cmi, lst_attr, closures)
 
 
 # ---- (1c) load order ----------------------------------------------------------------------
@@ -979,6 +982,217 @@ def check_list_order(ctx, repo, m, cmi, lst_attr, closures):
     ctx.ob("list-order", "registration-order readers", True, "read by ClassManager.%s" % ", ".join(readers) if readers else "no reader")
 
 
+# ---- (3b) entry isolation: nothing that depends on the position of an entry in the list reaches its parse --------
+def _mentions(e, names=(), attr=None):
+    for x in ast.walk(e):
+        if isinstance(x, ast.Name) and x.id in names:
+            return True
+        if attr is not None and isinstance(x, ast.Attribute) and x.attr == attr and isinstance(x.value, ast.Name) and x.value.id == "self":
+            return True
+    return False
+
+
+def _root_name(e):
+    while isinstance(e, (ast.Attribute, ast.Subscript, ast.Call)):
+        e = e.func if isinstance(e, ast.Call) else e.value
+    return e.id if isinstance(e, ast.Name) else None
+
+
+def _pos(n):
+    return (getattr(n, "lineno", 0), getattr(n, "col_offset", 0))
+
+
+def check_entry_isolation(ctx, repo, m, cmi, lst_attr, closures):
+    ml = m.cls("MapList")
+    init = ml.lookup("__init__")
+    mi_cls = m.cls("MapItem")
+    parse = mi_cls.lookup("parse")
+    # (a) every use of the entry list while the map is read and parsed
+    n_uses = 0
+    for n in walk_no_nested(init.node):
+        if not (isinstance(n, ast.Attribute) and n.attr == lst_attr and isinstance(n.ctx, ast.Load)
+                and isinstance(n.value, ast.Name) and n.value.id == "self"):
+            continue
+        n_uses += 1
+        p = parent(n)
+        kind = None
+        if isinstance(p, ast.Attribute) and p.value is n and isinstance(parent(p), ast.Call) and parent(p).func is p:
+            if p.attr == "append":
+                kind = "append"
+            elif p.attr == "sort":
+                kind = "sort"
+        elif isinstance(p, ast.Call) and isinstance(p.func, ast.Name) and p.func.id == "sorted" and p.args and p.args[0] is n:
+            kind = "sorted"
+        elif isinstance(p, ast.For) and p.iter is n and isinstance(p.target, ast.Name) and any(
+                isinstance(c, ast.Call) and isinstance(c.func, ast.Attribute) and c.func.attr == parse.name and not c.args
+                and isinstance(c.func.value, ast.Name) and c.func.value.id == p.target.id for s0 in p.body for c in ast.walk(s0)):
+            kind = "parse loop (its order is judged by the sorted-loop rule)"
+        ctx.check("entry-isolation", "use of self.%s: %s" % (lst_attr, ast.unparse(p)[:50]), kind is not None, init,
+                  "positional use of the map entry list: %s" % _shape(p, n),
+                  "while the map is read, MapList.__init__ uses the entry list as `%s`: besides append of the entry just read and the "
+                  "load-order sort, any access (index, slice, emptiness/length test, iteration, zip/enumerate) exposes the position of an "
+                  "entry in the map list" % ast.unparse(p)[:80], node=n, detail="self.%s used for %s" % (lst_attr, kind))
+    ctx.count("entry_list_uses", n_uses)
+    # (b) the reading loop: nothing carried from one entry to the next reaches an entry
+    read_loop, cur = None, set()
+    for n in walk_no_nested(init.node):
+        if isinstance(n, ast.Assign) and isinstance(n.value, ast.Call) and isinstance(n.value.func, ast.Name) and n.value.func.id == mi_cls.name:
+            for t in n.targets:
+                if isinstance(t, ast.Name):
+                    cur.add(t.id)
+            p = parent(n)
+            while p is not None and p is not init.node and not isinstance(p, (ast.For, ast.While)):
+                p = parent(p)
+            if isinstance(p, (ast.For, ast.While)):
+                read_loop = p
+    ctx.require(read_loop is not None and cur, "MapList.__init__: the loop reading the map entries was not found")
+    body_nodes = [x for s0 in read_loop.body for x in ast.walk(s0)]
+    stores, loads = {}, {}
+    for x in body_nodes:
+        if isinstance(x, ast.Name):
+            (stores if isinstance(x.ctx, ast.Store) else loads).setdefault(x.id, []).append(x)
+    aug = {x.target.id for x in body_nodes if isinstance(x, ast.AugAssign) and isinstance(x.target, ast.Name)}
+    target_names = {x.id for x in ast.walk(read_loop.target) if isinstance(x, ast.Name)} if isinstance(read_loop, ast.For) else set()
+    carried = set(aug)
+    for nme, sts in stores.items():
+        if nme in target_names or nme not in loads:
+            continue
+        first_store = min(_pos(x) for x in sts)
+        # a read before the first write of the iteration sees the value of the previous iteration; the right-hand
+        # side of the first assignment itself is evaluated before the store
+        for ld in loads[nme]:
+            st_stmt = next((s0 for s0 in body_nodes if isinstance(s0, ast.Assign) and any(t is x for t in ast.walk(s0) for x in sts)
+                            and _pos(s0) <= first_store), None)
+            if _pos(ld) < first_store or (st_stmt is not None and any(y is ld for y in ast.walk(st_stmt.value))):
+                carried.add(nme)
+    for x in body_nodes:
+        bad = None
+        if isinstance(x, ast.Call) and isinstance(x.func, ast.Attribute):
+            recv = x.func.value
+            root = _root_name(recv)
+            args = list(x.args) + [k.value for k in x.keywords]
+            recv_is_other_entry = (root in carried and root not in cur) or _mentions(recv, attr=lst_attr)
+            if recv_is_other_entry and x.func.attr not in ("append", "sort") and (args or x.func.attr.startswith("set")):
+                bad = "calls %s on an entry other than the one just read" % ast.unparse(x)[:70]
+            elif root in cur and any(_mentions(a, carried - cur, lst_attr) for a in args):
+                bad = "passes data carried over from another entry to the entry just read: %s" % ast.unparse(x)[:70]
+            elif x.func.attr == "seek" and any(_mentions(a, carried - cur, lst_attr) for a in args):
+                bad = "positions the stream with data carried over from another entry: %s" % ast.unparse(x)[:70]
+        elif isinstance(x, ast.Call) and isinstance(x.func, ast.Name) and x.func.id == mi_cls.name:
+            if any(_mentions(a, carried, lst_attr) for a in list(x.args) + [k.value for k in x.keywords]):
+                bad = "constructs the entry with data carried over from another entry: %s" % ast.unparse(x)[:70]
+        elif isinstance(x, ast.Assign):
+            for t in x.targets:
+                if isinstance(t, ast.Attribute):
+                    root = _root_name(t.value)
+                    if (root in carried and root not in cur) or _mentions(t.value, attr=lst_attr):
+                        bad = "stores into an entry other than the one just read: %s" % ast.unparse(x)[:70]
+                    elif root in cur and _mentions(x.value, carried - cur, lst_attr):
+                        bad = "stores data carried over from another entry into the entry just read: %s" % ast.unparse(x)[:70]
+        if bad:
+            ctx.check("entry-isolation", "reading loop", False, init, "reading loop: %s" % bad.split(":")[0],
+                      "the map-reading loop of MapList.__init__ %s -- a map entry then depends on its neighbour in the list" % bad, node=x)
+    ctx.ob("entry-isolation", "reading loop carried variables", True,
+           "carried across iterations: %s; none reaches an entry, a constructor or a seek" % (sorted(carried) or "none"))
+    # (c) every attribute MapItem.parse (and the self-helpers it calls) reads derives from the entry's own fields
+    helpers, work = {}, [parse]
+    while work:
+        f = work.pop()
+        if f.qualname in helpers:
+            continue
+        helpers[f.qualname] = f
+        for n in walk_no_nested(f.node):
+            if isinstance(n, ast.Call) and isinstance(n.func, ast.Attribute) and isinstance(n.func.value, ast.Name) and n.func.value.id == "self":
+                g = mi_cls.lookup(n.func.attr)
+                if g is not None:
+                    work.append(g)
+    read_attrs = set()
+    for f in helpers.values():
+        for n in walk_no_nested(f.node):
+            if isinstance(n, ast.Attribute) and isinstance(n.ctx, ast.Load) and isinstance(n.value, ast.Name) and n.value.id == "self" \
+                    and mi_cls.lookup(n.attr) is None:
+                read_attrs.add(n.attr)
+    ctx.count("parse_read_attrs", len(read_attrs))
+    # channels: methods (not the constructor) that store one of their parameters into such an attribute
+    channels = {}
+    for name, f in mi_cls.methods.items():
+        if name == "__init__":
+            continue
+        params = set(f.params()[1:])
+        for n in walk_no_nested(f.node):
+            if isinstance(n, ast.Assign):
+                for t in n.targets:
+                    if isinstance(t, ast.Attribute) and isinstance(t.value, ast.Name) and t.value.id == "self" and t.attr in read_attrs \
+                            and _mentions(n.value, params):
+                        channels.setdefault(name, set()).add(t.attr)
+    cg = CallGraph(repo)
+    scope = {init.qualname: init}
+    for tname, clo in closures.items():
+        for q, (f, pr, par) in clo.items():
+            if f.module is m:
+                scope.setdefault(q, f)
+    for q, f in sorted(scope.items()):
+        types = cg.local_types(f)
+        for n in ast.walk(f.node):
+            if isinstance(n, ast.Call) and isinstance(n.func, ast.Attribute) and n.func.attr in channels:
+                callees = [c for c, pr in cg.resolve_method(n.func, f, types)]
+                if not any(c.cls is mi_cls for c in callees):
+                    continue
+                recv = n.func.value
+                # a write made after the entry's own parse() in the same iteration of the sorted loop cannot reach its parse
+                if f is init and _after_parse_in_loop(init, n, parse.name):
+                    continue
+                own = isinstance(recv, ast.Name) and (recv.id in cur or recv.id == "self") and \
+                    all(isinstance(x, ast.Constant) or (isinstance(x, ast.Name) and x.id == recv.id)
+                        for a in n.args for x in ast.walk(a) if isinstance(x, (ast.Name, ast.Constant)))
+                ctx.check("entry-isolation", "%s calls MapItem.%s" % (q, n.func.attr), own, f,
+                          "MapItem.%s written from outside via %s" % ("/".join(sorted(channels[n.func.attr])), n.func.attr),
+                          "MapItem.parse reads self.%s, which %s sets through %s(%s): the value does not derive from the entry's own "
+                          "fields (type, size, offset) but from what the caller knows about other entries" % (
+                              "/".join(sorted(channels[n.func.attr])), q, n.func.attr, ", ".join(ast.unparse(a) for a in n.args)[:60]), node=n)
+            elif isinstance(n, ast.Assign):
+                for t in n.targets:
+                    if isinstance(t, ast.Attribute) and t.attr in read_attrs and not (isinstance(t.value, ast.Name) and t.value.id == "self"):
+                        ts = cg.expr_types(t.value, f, types)
+                        is_mi = any(c is mi_cls for k, c in ts) or (f.cls is ml and (_root_name(t.value) in cur or _mentions(t.value, attr=lst_attr)))
+                        if is_mi:
+                            ctx.check("entry-isolation", "%s stores MapItem.%s" % (q, t.attr), False, f,
+                                      "MapItem.%s written from outside" % t.attr,
+                                      "MapItem.parse reads self.%s, which %s assigns from outside (%s)" % (t.attr, q, ast.unparse(n)[:60]), node=n)
+    ctx.ob("entry-isolation", "attributes read by MapItem.parse", True,
+           "%s; setter channels into them: %s" % (sorted(read_attrs), {k: sorted(v) for k, v in channels.items()} or "none"))
+
+
+def _after_parse_in_loop(init, n, parse_name):
+    lp = parent(n)
+    while lp is not None and lp is not init.node and not isinstance(lp, (ast.For, ast.While)):
+        lp = parent(lp)
+    if not isinstance(lp, (ast.For, ast.While)):
+        return False
+    calls = [c for s0 in lp.body for c in ast.walk(s0) if isinstance(c, ast.Call) and isinstance(c.func, ast.Attribute)
+             and c.func.attr == parse_name and not c.args]
+    top = [s0 for s0 in lp.body if any(c is x for c in calls for x in ast.walk(s0))]
+    # the parse call must be a top-level statement of the loop body that precedes the statement containing n
+    for i, s0 in enumerate(lp.body):
+        if any(x is n for x in ast.walk(s0)):
+            return any(t in lp.body[:i] for t in top)
+    return False
+
+
+def _shape(p, n):
+    if isinstance(p, ast.Subscript):
+        return "subscript / slice"
+    if isinstance(p, (ast.If, ast.While, ast.BoolOp, ast.UnaryOp, ast.IfExp)):
+        return "emptiness test"
+    if isinstance(p, (ast.For, ast.comprehension)):
+        return "iteration in list order"
+    if isinstance(p, ast.Call):
+        return "passed to %s" % (ast.unparse(p.func)[:30])
+    if isinstance(p, ast.Attribute):
+        return "method .%s" % p.attr
+    return type(p).__name__
+
+
 # ---------------------------------------------------------------------------
 def thorough(ctx):
     m = ctx.mod(DEX)
@@ -1079,6 +1293,28 @@ def thorough(ctx):
             return undo
         return mk
 
+    def neighbour_write():
+        node = fn(m, "MapList.__init__")
+        for n in ast.walk(node):
+            if isinstance(n, ast.For):
+                for i, st in enumerate(n.body):
+                    if isinstance(st, ast.Assign) and isinstance(st.value, ast.Call) and isinstance(st.value.func, ast.Name) and st.value.func.id == "MapItem" \
+                            and isinstance(st.targets[0], ast.Name):
+                        new = ast.parse("if self.map_item:\n    self.map_item[-1].unused = %s.get_offset()" % st.targets[0].id).body[0]
+                        ast.copy_location(new, st)
+                        ast.fix_missing_locations(new)
+                        for a in ast.walk(new):
+                            for b in ast.iter_child_nodes(a):
+                                b._parent = a
+                        new._parent = n
+                        n.body.insert(i + 1, new)
+
+                        def undo(n=n, new=new):
+                            n.body.remove(new)
+                        return undo
+        return None
+
+    breaking += [("previous map entry written with data of the next one", neighbour_write)]
     breaking += [("METHOD_ID_ITEM no longer depends on PROTO_ID_ITEM", drop_dep("METHOD_ID_ITEM", "PROTO_ID_ITEM")),
                  ("CLASS_DEF_ITEM no longer depends on CLASS_DATA_ITEM", drop_dep("CLASS_DEF_ITEM", "CLASS_DATA_ITEM")),
                  ("ANNOTATION_ITEM no longer depends on FIELD_ID_ITEM", drop_dep("ANNOTATION_ITEM", "FIELD_ID_ITEM")),
